@@ -5,7 +5,11 @@ Inductive case :=
 | KCrop (eps dur step start n : Z) (focus : sup) (m : amode) (fixed : option Z) (obs : list Z)
 | KCropWin (dur step start n : Z) (focus : seg) (m : amode) (obs : option (list Z * Z))
            (same_step_dur_labels : bool)
-| KIter (dur step start n : Z) (obs : list (Z * option seg)) (extent2 : seg) (misc_ok : bool).
+| KIter (dur step start n : Z) (obs : list (Z * option seg)) (extent2 : seg) (misc_ok : bool)
+(* decimal (non-dyadic) window parameters: outside the exact tier of the model. The driver evaluates the clauses of the
+   property that need no model - a feature aligned to its own window is itself, ufuncs keep window and shape, iteration
+   yields one pair per row - and reports whether they hold. *)
+| KDriver (n : Z) (ok : bool).
 
 Definition check (c : case) : nat :=
   match c with
@@ -36,4 +40,5 @@ Definition check (c : case) : nat :=
           if ok && list_eqb (pair_eqb Z.eqb (option_eqb seqb)) obs (fiter w n) && seqb ext (fextent2 w n)
           then 0%nat else 1%nat
       end
+  | KDriver _ ok => if ok then 0%nat else 1%nat
   end.
